@@ -676,7 +676,17 @@ func extractMinimalRegions(t *trie.Trie[bit256.Key, peer.ID], path bitstr.Key, s
 		return append(extractMinimalRegions(t.Branch(b), path+bitstr.Key(byte('0'+b)), size, order),
 			extractMinimalRegions(t.Branch(1-b), path+bitstr.Key(byte('1'-b)), size, order)...)
 	}
-	return []Region{{Prefix: path, Peers: t}}
+	if len(path) == 0 {
+		return []Region{{Prefix: path, Peers: t}}
+	}
+	// t is a subtrie rooted at depth len(path). Re-root the region's peers in
+	// a trie of their own, so that Region.Peers branches on the first key bit at
+	// its root like Region.Keys does: AllocateToKClosest walks both tries in
+	// lockstep from depth 0 and would otherwise compare bit d of the keys with
+	// bit len(path)+d of the peers.
+	peers := trie.New[bit256.Key, peer.ID]()
+	peers.AddMany(AllEntries(t, order)...)
+	return []Region{{Prefix: path, Peers: peers}}
 }
 
 // AssignKeysToRegions assigns the provided keys to the regions based on their
